@@ -208,6 +208,7 @@ func c02History(r *hx.Run, w *W, rnd *rand.Rand, hi int, epochs []c02Epoch) {
 		cancelF()
 		st, lockFree := entryState("c02", key)
 		if !lockFree {
+			hangSeen(r)
 			r.Violate("request_never_completed", map[string]string{"outcome": ep.Outcome, "variant": ep.Variant}, "the entry lock is held at quiescence: the fetch's completion is blocked (deadlock between completion and a request)",
 				map[string]interface{}{"origin_inflight": w.Farm.InflightKey(key), "blocked_goroutines": pikeGoroutines(), "trace": trace}, cs)
 			return
@@ -224,6 +225,7 @@ func c02History(r *hx.Run, w *W, rnd *rand.Rand, hi int, epochs []c02Epoch) {
 			} else {
 				stuckWhy = "requests blocked at quiescence"
 			}
+			hangSeen(r)
 			r.Violate("request_never_completed", map[string]string{"outcome": ep.Outcome, "variant": ep.Variant}, stuckWhy,
 				map[string]interface{}{"entry": fmt.Sprintf("%+v", st), "origin_inflight": inflight, "blocked_goroutines": pikeGoroutines(), "trace": trace}, cs)
 			return
@@ -316,6 +318,7 @@ func cancelClient(c *hx.Client) {
 }
 
 func c02(r *hx.Run) {
+	r.MaxViol = 3 // violations here usually cost a watchdog period each
 	r.Level = "fault_enumeration"
 	r.Rule = "quick: every fetch outcome {cacheable, uncacheable, 5xx, upstream protocol error, cacheable headers with an undecodable body (no response object), hang > ProxyTimeout (504), panic at the proxy hook, truncated upstream body (net/http abort panic), fetcher's client drops its connection} x every waiter position {parked, one waiter registered but not yet receiving, the same + purge of the key, arriving after completion} x repeats; thorough adds random outcome sequences of length 2-6 on one key. Verdict at quiescence on hooked entry state (status, registered waiters), on every request having returned, and on a follow-up request. Non-trivial = history in which >=1 waiter was parked; distinct = (outcome,variant,waiters) sequence."
 	r.Assume = []string{"virtual clock, hook points (tag-guarded)", "ProxyTimeout 200ms so that a hanging upstream ends the fetch", "-race build"}
